@@ -531,6 +531,14 @@ def gen_plan(seed: int, cls: str) -> dict:
     if ro.random() < 0.35:
         pos = ro.randrange(len(ops) + 1)
         ops[pos:pos] = _literal_temporaries_scenario(ro, sym, knobs, pick_custom)
+    if ro.random() < 0.25:
+        pos = ro.randrange(len(ops) + 1)
+        ops[pos:pos] = _arg_handler_scenario(ro, sym)
+    if ro.random() < 0.25 and ndict < 2:
+        extra = _dict_snapshot_scenario(ro, sym, ndict)
+        ndict += 2
+        pos = ro.randrange(len(ops) + 1)
+        ops[pos:pos] = extra
     if roots and ro.random() < 0.3:
         ops.extend(_equal_values_scenario(ro, sym, roots, pick_custom))
     if ro.random() < 0.7:
@@ -577,6 +585,46 @@ def _equal_values_scenario(ro, sym, roots, pick_custom):
             out.append({'op': 'convert', 'root': r, 'data': tg.enc(data), 'custom': custom})
         except HarnessError:
             pass
+    return out
+
+
+def _arg_handler_scenario(ro, sym):
+    """
+    A handler that looks at the type *arguments* (accepts list[int], declines every other list[...]) is offered
+    several parameterisations of one origin in a random order: what it answered for one must not decide the others.
+    """
+    cases = [(['list', ['s', 'int']], [3, 1, 2]), (['list', ['s', 'str']], ['b', 'a']), (['tlist', ['s', 'int']], [5, 6]),
+             (['list', ['s', 'float']], [1.5]), (['dict', ['s', 'str'], ['s', 'int']], {'k': 1}),
+             (['dict', ['s', 'str'], ['s', 'str']], {'k': 'v'}), (['tdict', ['s', 'str'], ['s', 'int']], {'q': 2})]
+    custom = ro.choice([['one', 'list_int'], ['seq', 'list_int', 'dict_str_int'], ['one', 'dict_str_int'], ['seq', 'defer_ni', 'list_int']])
+    out = []
+    for (ast, data) in ro.sample(cases, ro.choice([3, 4, 5])):
+        out.append({'op': 'inline', 't': ast, 'data': tg.enc(data), 'custom': custom})
+        if ro.random() < 0.3:
+            out.append({'op': 'inline', 't': ['tl', ast, ['s', 'int']], 'data': tg.enc([data, 1]), 'custom': custom})
+    return out
+
+
+def _dict_snapshot_scenario(ro, sym, ndict):
+    """
+    The application keeps a handler dict, uses it, edits it in place, and elsewhere builds another dict with what
+    the first one *used to* contain: each call must see exactly the dict it was given, as it is at that moment.
+    """
+    a, b = f'h{ndict}', f'h{ndict + 1}'
+    ty = ro.choice(['int', 'str'])
+    (c1, c2) = DICT_CONVS[ty] if ro.random() < 0.5 else reversed(DICT_CONVS[ty])
+    other = 'str' if ty == 'int' else 'int'
+    e_orig = [[ty, c1], [other, DICT_CONVS[other][0]]]
+    e_mut = ro.choice([[[ty, c1], [other, DICT_CONVS[other][1]]], [[ty, c2]], [[ty, c1]]])
+    probe_a = (['s', ty], 4 if ty == 'int' else 'w')
+    probe_b = (['s', other], 'v' if other == 'str' else 6)
+    shapes = [probe_a, probe_b, (['list', ['s', other]], ['v'] if other == 'str' else [6]), (['dict', ['s', 'str'], ['s', other]], {'k': 'v' if other == 'str' else 6})]
+    out = [{'op': 'mkdict', 'name': a, 'entries': e_orig},
+           {'op': 'inline', 't': probe_a[0], 'data': tg.enc(probe_a[1]), 'custom': ['dictref', a]},
+           {'op': 'mutdict', 'name': a, 'entries': e_mut},
+           {'op': 'mkdict', 'name': b, 'entries': e_orig}]
+    for (ast, data) in ro.sample(shapes, ro.choice([2, 3, 4])):
+        out.append({'op': 'inline', 't': ast, 'data': tg.enc(data), 'custom': ['dictref', ro.choice([b, b, a])]})
     return out
 
 
